@@ -97,6 +97,7 @@ type Place struct {
 }
 
 type fctx struct {
+	callRes map[string][]Term // results of the last contract-call of each callee (root context; $result)
 	vc     *VC
 	fn     *ssa.Function
 	con    *Contract
@@ -693,6 +694,13 @@ func (vc *VC) TranslateFunction(fn *ssa.Function, con *Contract) (sc *Script, er
 		var results []Term
 		results = append(results, r.vals...)
 		env := f.contractEnv(con, fn, args, results, r.state, f.entry)
+		env.Results = func(callee string, k int) (Term, bool) {
+			rs, ok := f.callRes[callee]
+			if !ok || k < 0 || k >= len(rs) {
+				return Term{}, false
+			}
+			return rs[k], true
+		}
 		for ci, c := range con.Ensures {
 			t, e := ToSMT(c.Expr, env)
 			if e != nil {
